@@ -22,19 +22,34 @@ def run(ctx):
     fa = ctx.facts
     b = ctx.anchor("R17a", PH)
     if b:
+        # decision table by abstract interpretation: evaluate_conditions(..)? yields SearchControl::<V>(add); the handler
+        # returns (cost, add) with cost = 1 for a selected element, 2 for a skipped one, 0 (= unusable) for Stop / Finish
+        from lib import absint
         tbl = {}
-        for m in fa.matches(b.path):
-            if m["scrut_ty"].endswith("SearchControl"):
-                for a in m["arms"]:
-                    pats = a["p"]["sub"] if a["p"]["k"] == "or" else [a["p"]]
-                    for p in pats:
-                        tbl[(p.get("path") or "?").split("::")[-1]] = (a["body"]["lits"], a["body"]["ops"])
-        c = tbl.get("Continue")
-        okc = bool(c) and any("Pu128(1)" in l for l in c[0]) and "Add" in c[1] and "Not" in c[1]
-        okz = all(k in tbl and any("Pu128(0)" in l for l in tbl[k][0]) and "Add" not in tbl[k][1] for k in ("Finish", "Stop"))
+        problems = []
+        for vname in ("Continue", "Stop", "Finish"):
+            for add in (True, False):
+                def hook(it, env, t, _v=vname, _a=add):
+                    if common.norm(cfg.callee(t) or "") == "agdb::db::DbImpl::evaluate_conditions":
+                        return ("enum", "Ok", [("enum", _v, [("bool", _a)])])
+                    return None
+                try:
+                    v = absint.Interp(b, call_hook=hook).run({1: ("ref", ("struct", {"db": ("sym", "db"), "conditions": ("sym", "conditions")})),
+                                                               2: ("sym", "index"), 3: ("sym", "distance")})
+                    if v[0] == "enum" and v[1] == "Ok" and v[2] and v[2][0][0] == "tuple":
+                        tbl[(vname, add)] = tuple(x[1] for x in v[2][0][1])
+                    else:
+                        tbl[(vname, add)] = absint.show(v)
+                except absint.Unknown as e:
+                    tbl[(vname, add)] = None
+                    problems.append(str(e))
+        want = {("Continue", True): (1, True), ("Continue", False): (2, False), ("Stop", True): (0, True), ("Stop", False): (0, False),
+                ("Finish", True): (0, True), ("Finish", False): (0, False)}
+        okc = tbl == want
+        okz = True
         ctx.ob("R17a", "PathHandler::process:cost-table", okc and okz,
                "Continue(add) -> (1 + !add, add); Finish|Stop -> (0, add)" if okc and okz else
-               "path cost table changed: %s" % tbl, b.where)
+               "path cost table changed: %s (expected %s)%s" % (tbl, want, ("; idiom not recognised: %s" % problems[0]) if problems else ""), b.where)
         # the flag returned is the matched `add`
         ev = [i for i, t in cfg.calls(b) if common.norm(cfg.callee(t) or "") == "agdb::db::DbImpl::evaluate_conditions"]
         ctx.ob("R17a", "PathHandler::process:conditions", bool(ev), "costs derive from evaluate_conditions" if ev else
